@@ -11,6 +11,7 @@ func init() {
 	vRegister("VH_C04_decode", VH_C04_decode)
 	vRegister("VH_C04_decode_two", VH_C04_decode_two)
 	vRegister("VH_C04_blocked", VH_C04_blocked)
+	vRegister("VH_C04_history", VH_C04_history)
 }
 
 var errShortPeek = errors.New("short peek")
@@ -28,6 +29,7 @@ type vConn struct {
 	fault   bool // true: injected error at `end`, false: EOF
 	reads   int
 	maxRead int
+	dataErr bool // the Read that delivers the last octet before `end` reports the end/fault in the same call (io.Reader allows n > 0 with err != nil)
 }
 
 func (c *vConn) Peek(n int) ([]byte, error) {
@@ -75,6 +77,12 @@ func (c *vConn) Read(p []byte) (int, error) {
 	}
 	copy(p, c.stream[c.cur:c.cur+k])
 	c.cur += k
+	if c.dataErr && c.cur == c.end {
+		if c.fault {
+			return k, errInjected
+		}
+		return k, io.EOF
+	}
 	return k, nil
 }
 
@@ -153,7 +161,7 @@ func VH_C04_blocked() {
 	end := vInt("end")
 	vAssume(end >= 0 && end <= M)
 	end = vConcretize(end)
-	c := &vConn{stream: stream, end: end, fault: fault == 1, maxRead: vParam("chunks")}
+	c := &vConn{stream: stream, end: end, fault: fault == 1, maxRead: vParam("chunks"), dataErr: vParam("dataerr") == 1}
 	vAllocLimit(1 << 20)
 	var L int
 	if M >= 4 {
@@ -177,5 +185,64 @@ func VH_C04_blocked() {
 		}
 		vAssert("C04.blocked.consumes-exactly-the-frame", c.cur == L)
 	}
+	vReach("end")
+}
+
+// One codec value over an arrival history: the stream is exactly two frames (both lengths
+// symbolic); octets arrive in three steps (a1 <= a2 <= M, symbolic) and the non-blocking
+// extractor is polled after each arrival until it reports "incomplete". Whatever state the
+// codec keeps between polls, the frames come out exactly once, in order, as soon as they are
+// complete.
+func VH_C04_history() {
+	M, which := vParam("M"), vParam("codec")
+	stream := vBytes("s", M)
+	L1 := prefix(stream)
+	vAssume(L1 >= 4 && L1+4 <= M)
+	l1 := vConcretize(L1)
+	L2 := prefix(stream[l1:])
+	vAssume(L2 == M-l1)
+	l2 := M - l1
+	a1 := vInt("a1")
+	vAssume(a1 >= 0 && a1 <= M)
+	a1 = vConcretize(a1)
+	a2 := vInt("a2")
+	vAssume(a2 >= a1 && a2 <= M)
+	a2 = vConcretize(a2)
+	c := &vConn{stream: stream}
+	cd := codecOf(which)
+	got := 0
+	poll := func(arrived int) {
+		c.arrived = arrived
+		for k := 0; k < 3; k++ {
+			f, err := cd.Decode(c)
+			if err != nil {
+				vAssert("C04.history.only-incomplete-is-reported", vAnd(errors.Is(err, ErrPacketNotComplete), f == nil))
+				break
+			}
+			if got >= 2 {
+				vAssert("C04.history.no-third-frame", false)
+				break
+			}
+			lo, hi := 0, l1
+			if got == 1 {
+				lo, hi = l1, l1+l2
+			}
+			vAssert("C04.history.frame-in-order-octet-for-octet", vEqBytes(f, stream[lo:hi]))
+			got++
+		}
+		want := 0
+		if arrived >= l1 {
+			want++
+		}
+		if arrived >= l1+l2 {
+			want++
+		}
+		vAssert("C04.history.frames-out-as-soon-as-complete", got == want)
+	}
+	poll(a1)
+	poll(a2)
+	poll(M)
+	vObserve("got", got)
+	vAssert("C04.history.consumed-exactly-both-frames", c.cur == M)
 	vReach("end")
 }
